@@ -321,6 +321,7 @@ func doParsing(mp *msgParser) (err error) {
 // parseGroup iterates through a repeating group to maintain correct order of those fields.
 func parseGroup(mp *msgParser, tags []Tag) {
 	mp.foundBody = true
+	mp.trailerBytes = mp.rawBytes
 	dm := mp.msg.fields[mp.fieldIndex : mp.fieldIndex+1]
 	fields := getGroupFields(mp.msg, tags, mp.appDataDictionary)
 
@@ -333,10 +334,10 @@ func parseGroup(mp *msgParser, tags []Tag) {
 		}
 		mp.parsedFieldBytes = &mp.msg.fields[mp.fieldIndex]
 		mp.rawBytes, _ = extractField(mp.parsedFieldBytes, mp.rawBytes)
-		mp.trailerBytes = mp.rawBytes
 
 		// Is this field a member for the group.
 		if isGroupMember(mp.parsedFieldBytes.tag, fields) {
+			mp.trailerBytes = mp.rawBytes
 			// Is this field a nested repeating group.
 			if isNumInGroupField(mp.msg, append(tags, mp.parsedFieldBytes.tag), mp.appDataDictionary) {
 				dm = append(dm, *mp.parsedFieldBytes)
@@ -359,6 +360,7 @@ func parseGroup(mp *msgParser, tags []Tag) {
 			break
 		} else {
 			// Found a body field outside the group.
+			mp.trailerBytes = mp.rawBytes
 			searchTags := []Tag{mp.parsedFieldBytes.tag}
 			// Is this a new group not inside the existing group.
 			if isNumInGroupField(mp.msg, searchTags, mp.appDataDictionary) {
